@@ -262,19 +262,27 @@ def uses_n(t, k=0):
   return False
 
 
-def max_n(t, k=0):
-  """Largest size parameter for which build() stays within the 16-bit length."""
+_MAX_N = {}
+
+
+def max_n(t, k=0, f=0):
+  """Largest size parameter for which build() stays within the 16-bit length (action sizes depend on f)."""
   if not uses_n(t, k):
     return 0
-  lo, hi = 0, 70000
-  while lo < hi:                      # the length is monotone in n
-    mid = (lo + hi + 1) // 2
-    try:
-      build({"t": t, "k": k, "n": mid})
-      lo = mid
-    except ValueError:
-      hi = mid - 1
-  return lo
+  if t == STATS_REPLY and k == OFPST_AGGREGATE:
+    return 0xffffffff
+  key = (t, k, f % 39)
+  if key not in _MAX_N:
+    lo, hi = 0, 66000
+    while lo < hi:                      # the length is monotone in n
+      mid = (lo + hi + 1) // 2
+      try:
+        build({"t": t, "k": k, "n": mid, "f": f % 39})
+        lo = mid
+      except ValueError:
+        hi = mid - 1
+    _MAX_N[key] = lo
+  return _MAX_N[key]
 
 
 def build(spec):
